@@ -69,7 +69,7 @@ def validate_spec(r):
                 lits.append(f"(match load (cpy_cfg {magic}) {C.blist(c['bytes'])} with Ok _ => [0] | Err _ => [1] end, [1])")
             keep.append((c, o))
         bad, errs = C.coq_cases(r.wd, "specm" + v.replace(".", ""), HEADER, "list Z * list Z", "fun c => zlist_eqb (fst c) (snd c)", lits, chunk=150)
-        if errs or bad:
+        if C.spec_problem(r, errs, bad):
             print(f"MACHINERY-ERROR: marshal spec disagrees with CPython {v}'s marshal.loads:", errs[:1], [(keep[b][0]["bytes"][:60], keep[b][1]) for b in bad[:3]])
             raise SystemExit(2)
         total += len(lits)
